@@ -28,3 +28,8 @@ Definition is_pole (den : list Qc) (z : C) : Prop := polez den z = (0, 0).
 
 (* every pole strictly inside the unit circle *)
 Definition poles_inside (den : list Qc) : Prop := forall z : C, is_pole den z -> cnorm2 z < 1.
+
+(* z is the chosen root (x, y) of Spec.from_roots: x + i y or x - i y
+   (the same number when y = 0) *)
+Definition root_match (z : C) (xy : Qc * Qc) : Prop :=
+  z = (QR (fst xy), QR (snd xy)) \/ z = (QR (fst xy), - QR (snd xy)).
